@@ -77,12 +77,24 @@ def check_summary(drv, rng, obj, X, stats):
                     if holder != [lab]:
                         fail("missing values are not listed in the group transform sends them to", feature=f, listed=holder, transform=lab)
         else:
+            # the missing-value marker is a known value of the feature wherever transform gives missing values a label
+            # (features_dropna[f]: the object's dropna, or True once missing values were grouped by update_discretizer)
+            drop_f = obj.features_dropna.get(f, obj.dropna)
             known = [v for v in gl.values() if isinstance(v, str) and v != obj.str_default
-                     and not (not obj.dropna and v == obj.str_nan)]
+                     and not (not drop_f and v == obj.str_nan)]
             listed = [c for r in rows_f for c in r["content"]]
             if sorted(listed) != sorted(core.canon(v) for v in known):
                 fail("qualitative summary contents do not partition the known values", feature=f,
                      listed=sorted(listed)[:10], known=sorted(core.canon(v) for v in known)[:10])
+            if drop_f and obj.str_nan is not None and gl.contains(obj.str_nan):
+                Xp = X.head(1).copy()
+                Xp[raw] = pd.Series([None], dtype=object, index=Xp.index)
+                out, err, msg, _ = fitgen.run_transform(obj, Xp)
+                if err is None:
+                    lab = dict(out)[f][0]
+                    holder = [r["label"] for r in rows_f if core.canon(obj.str_nan) in r["content"]]
+                    if holder != [lab]:
+                        fail("missing values are not listed in the group transform sends them to", feature=f, listed=holder, transform=lab)
             probe_vals = [v for v in known if v != obj.str_nan]
             if probe_vals:
                 Xp = pd.concat([X.head(1)] * len(probe_vals), ignore_index=True)
